@@ -193,6 +193,7 @@ class HintTreeCode(HintTreeABC):
         'func_curr_code',
         'func_wrapper_locals',
         'hint_curr_expr',
+        'hint_root_sane',
         'indent_child',
         'indent_curr',
         'indent_level_child',
@@ -211,6 +212,7 @@ class HintTreeCode(HintTreeABC):
         func_wrapper_locals: LexicalScope
         hint_curr : HintDataCode
         hint_curr_expr : Optional[str]
+        hint_root_sane : Optional[HintSane]
         indent_curr: str
         indent_child: str
         indent_level_child: int
@@ -256,6 +258,7 @@ class HintTreeCode(HintTreeABC):
         self.func_wrapper_locals) = (  # pyright: ignore
         self.hint_curr) = (  # pyright: ignore
         self.hint_curr_expr) = (  # pyright: ignore
+        self.hint_root_sane) = (  # pyright: ignore
         self.indent_child) = (  # pyright: ignore
         self.indent_curr) = (  # pyright: ignore
         self.indent_level_child) = (  # pyright: ignore
@@ -310,6 +313,12 @@ class HintTreeCode(HintTreeABC):
         # sanified hint is cacheable, defaulting to the same boolean set on this
         # sanified hint metadata.
         self.is_check_expr_cacheable = hint_sane.is_check_expr_cacheable
+
+        # Sanified metadata of the root hint, preserved for exception messages.
+        # Note that the metadata of *VISITED* hints in the "_hint_queue"
+        # (including that of the root hint at index 0) is deinitialized as soon
+        # as those hints have been visited and is thus unusable for this.
+        self.hint_root_sane = hint_sane
 
         # ..................{ DEFAULTS                       }..................
         # Restore instance variables to initial defaults.
@@ -592,11 +601,8 @@ class HintTreeCode(HintTreeABC):
         #
         # Note that this should *NEVER* happen, but probably nonetheless will.
         if self.index_last >= FIXED_LIST_SIZE_MEDIUM:  # pragma: no cover
-            # Metadata encapsulating the previously enqueued root hint.
-            root_hint_meta = self._hint_queue[0]
-
             # This root hint.
-            root_hint = root_hint_meta.hint_sane.hint
+            root_hint = self.hint_root_sane.hint  # type: ignore[union-attr]
 
             # Raise an exception embedding this root hint.
             raise BeartypeDecorHintRecursionException(
